@@ -209,9 +209,10 @@ def window_of(isa: R.Isa):
     return lo, min(ghi, lo + 4095)
 
 
-GLOBAL_LABELS = ['start', 'loop', 'done', 'tbl', 'msg', 'vec', 'isr', 'amov', 'mov1', 'xa', 'hl2', 'jmp2']
-FILE_LABELS = ['_start', '_loop', '_tmp', '_tbl']
-LOCAL_LABELS = ['.loop', '.done', '.l1', '.skip']
+# names that differ only in letter case are different names
+GLOBAL_LABELS = ['start', 'loop', 'done', 'tbl', 'msg', 'vec', 'isr', 'amov', 'mov1', 'xa', 'hl2', 'jmp2', 'LOOP', 'Start', 'TBL']
+FILE_LABELS = ['_start', '_loop', '_tmp', '_tbl', '_LOOP']
+LOCAL_LABELS = ['.loop', '.done', '.l1', '.skip', '.LOOP']
 
 
 class Builder:
